@@ -543,12 +543,12 @@ func (v *VM) CallWithArgs(context *Context, c Callable, args []interface{}) (int
 	}
 	var frames [MaxArgs]StackFrame
 	for i, arg := range args {
-		literal, err := b6.FromLiteral(arg)
-		if err != nil {
-			return nil, err
-		}
 		frames[i].Value = ValueOf(arg)
-		frames[i].Expression = b6.Expression{AnyExpression: literal.AnyLiteral}
+		if c, ok := arg.(Callable); ok {
+			frames[i].Expression = c.Expression()
+		} else if literal, err := b6.FromLiteral(arg); err == nil {
+			frames[i].Expression = b6.Expression{AnyExpression: literal.AnyLiteral}
+		}
 	}
 	return v.CallWithArgsAndExpressions(context, c, frames[0:len(args)])
 }
